@@ -500,14 +500,33 @@ def _symbolic(ctx):
         def get_index(self, k): return _Index()
 
     fn = getattr(arrays, "get_coord_index", None)
-    ctx.sym_tie("ext_get_coord_index_clamp", lambda: fn(_Arr(), "time", v, raise_error=False), V, "Rat",
-                "some (SE.Raster.clampIndexR lo hi v n sb)",
-                tactic="unfold ext_get_coord_index_clamp SE.Raster.clampIndexR\n  se_close",
-                meta={"op": "rasterize"}, catch=(KeyError,))
-    ctx.sym_tie("ext_get_coord_index_raise", lambda: fn(_Arr(), "time", v), V, "Rat",
-                "SE.Raster.clampIndexRaise lo hi v sb",
-                tactic="unfold ext_get_coord_index_raise SE.Raster.clampIndexRaise\n  se_close",
-                meta={"op": "rasterize"}, catch=(KeyError,))
+    # the range of an axis is (min, max): `lo ≤ hi` is a hypothesis of the tie
+    _sym_tie_hyp(ctx, "ext_get_coord_index_clamp", lambda: fn(_Arr(), "time", v, raise_error=False), V, "Rat",
+                 "(hr : lo ≤ hi)", "some (SE.Raster.clampIndexR lo hi v n sb)",
+                 "unfold ext_get_coord_index_clamp SE.Raster.clampIndexR\n  se_close")
+    _sym_tie_hyp(ctx, "ext_get_coord_index_raise", lambda: fn(_Arr(), "time", v), V, "Rat",
+                 "(hr : lo ≤ hi)", "SE.Raster.clampIndexRaise lo hi v sb",
+                 "unfold ext_get_coord_index_raise SE.Raster.clampIndexRaise\n  se_close")
+
+
+def _sym_tie_hyp(ctx, name, fn, variables, ret_type, hyps, model_term, tactic):
+    """ctx.sym_tie with hypotheses on the variables: trace, emit `def name`, register
+    `∀ vars, hyps → name vars = model_term`; a failing trace is a broken obligation, not a crash"""
+    from .. import symtrace as st
+    from ..leanio import InfraError
+    meta = {"op": "rasterize"}
+    try:
+        src, _tree, n = st.extract(name, fn, variables, ret_type, catch=(KeyError,))
+    except InfraError:
+        raise
+    except Exception as e:  # noqa: BLE001
+        ctx.symbolic_ties[name] = {"error": repr(e)[:300]}
+        ctx.pre_failed.append(name)
+        ctx.fail("obligation", name, detail=f"symbolic trace of the current source failed: {e!r}", extra=meta)
+        return
+    ctx.symbolic_ties[name] = {"paths": n}
+    args = " ".join(variables)
+    ctx.obligation(name, f"{src}\ntheorem {name}_tie ({args} : Rat) {hyps} : {name} {args} = {model_term} := by\n  {tactic}\n", meta)
 
 
 # ------------------------------------------------------------------ generators
@@ -555,7 +574,7 @@ def _irregular(rng, n, kind):
 
 def _value_pool(dtype, fill):
     """values exactly representable in the dtype: integers, and quarters for the float dtypes"""
-    ints = [v for v in range(1, 9) if v != fill]
+    ints = [v for v in range(0, 9) if v != fill]
     if dtype in ("float32", "float64"):
         return ints + [rat(Fraction(k, 4)) for k in (1, 2, 3, 5, 10, -3) if Fraction(k, 4) != fill] + [-2]
     return ints
@@ -626,6 +645,13 @@ def _snap(rng, g, tp, fp):
     return g
 
 
+def _unclose(g):
+    cut = lambda ring: ring[:-1] if len(ring) >= 4 and ring[0] == ring[-1] else ring
+    if g["type"] == "Polygon":
+        return {"type": "Polygon", "coordinates": [cut(r) for r in g["coordinates"]]}
+    return {"type": "MultiPolygon", "coordinates": [[cut(r) for r in poly] for poly in g["coordinates"]]}
+
+
 def _general_cases(ctx, n):
     """requests over all nine geometry types; keys left out of the request are left to rasterize's defaults"""
     rng = ctx.rng
@@ -654,6 +680,9 @@ def _general_cases(ctx, n):
                     g = _snap(rng, g, tp, fp)
                 elif g["type"] == "BoundingBox" and rng.random() < 0.5:
                     g = _box(rng, tp, fp)
+                elif g["type"] in POLY_SHAPES and rng.random() < 0.3:
+                    g = _unclose(g)               # rings given without the closing vertex (shapely closes them)
+                    ctx.tally("general:unclosed-rings")
                 geoms.append(g)
         prev = geoms
         for g in geoms:
